@@ -30,7 +30,9 @@ RULE = ("every documented goalign command with representative flags, on random n
         "and all files written; seeded commands with random seeds; reformat chains over random permutations of fasta / phylip / nexus "
         "/ clustal; seqboot + compute distance against distboot for 5 models; cli_seeded: exact predicted bytes. Non-trivial = the "
         "command succeeded and wrote at least 20 bytes (or it is an error-path case with at least two invalid arguments)")
-PARTIAL = ["the bytes of each individual command are not modelled here (C01-C10, C12-C16 model the operations); C11's theorems are about "
+PARTIAL = ["the bytes of each individual command are not modelled here (C01-C10, C12-C16 model the operations; exceptions: the seeded commands "
+           "of `cli_seeded`, and `divide` / `identical`, whose files / answer are predicted from the Phylip parser model, the writers and a "
+           "four-line model of Identical - oracle only, no theorem); C11's theorems are about "
            "the sources of nondeterminism, seeding, thread independence of the pool / ordered collection, distboot = seqboot + distance, "
            "and format chains",
            "chain theorem instantiated for FASTA, Nexus, Phylip (8 layouts) and Clustal (chain_all_formats, under the hypotheses of "
@@ -375,6 +377,10 @@ def gen(rng, tier):
                    True, "distboot")
     # --- exact bytes of seeded commands -----------------------------------------------------------------
     for c in gen_seeded(rng, tier):
+        yield c
+    # --- exact bytes of two unseeded commands nobody else owns: divide (files per alignment / group), identical -----
+    from driver import cligen
+    for c in cligen.cases(rng, ['divide', 'identical'], 30 if quick else 300):
         yield c
 
 
